@@ -25,7 +25,11 @@ RULE = ("scenarios over a fresh module/class per case: 1-2 targets of kind {modu
         "surviving patch probed after the other one ended (plus sequential reuse as control); part 2 (30% of the later patchers reuse "
         "an earlier patcher's object): random well-bracketed nestings and "
         "sequences (mostly on one target); part 3 (malformed stream, ~12%): non-LIFO stops, double starts, stop without start, "
-        "stopall under a with-block, a patcher nested in itself.  distinct = different (targets, patchers, op list); "
+        "stopall under a with-block, a patcher nested in itself; part 4 (result kind, drawn after the other parts): the KIND of value the "
+        "replacement returns - besides a plain value / a raise: None, an exception instance as data, a FUTURE OBJECT as the result "
+        "(computed ConstFuture, not yet started AsyncTask, unflushed batch item) - x every callable replacement kind x target kind x "
+        "activation style, plus nestings / shared replacements with such results; every convention must deliver the very object "
+        "the replacement returned (compared by identity).  distinct = different (targets, patchers, op list); "
         "non-trivial = at least one activation with a probe inside it and one after it")
 TRUSTED = ["CPython 3.12 unittest.mock._patch (get_original, __enter__, __exit__, start, stop, stopall, decoration_helper, "
            "decorate_class) and MagicMock: modelled in Mock.v, exercised, not verified",
@@ -41,6 +45,9 @@ ASSUMPTIONS = ["'well-bracketed' = the stack discipline of Mock wb: every enter/
                "the object that activation installed, not the one an earlier activation of the same patcher installed",
                "one object given as new= to several patchers is 'the replacement' of each of them: as long as one of these patches is active its "
                "target must reach that object through every convention, also after another patch that was given the same object has ended",
+               "'agree on the result' = every convention delivers the very object the replacement returned (or raises what it raised), whatever "
+               "kind of object that is: a future object (ConstFuture, task, batch item) returned by the replacement is its result, not "
+               "something a convention may look into - fn(..) returns it, so do .asynq(..).value(), a yielded .asynq(..) and await .asyncio(..)",
                "received arguments: the given arguments, preceded by the bound instance/class exactly when the descriptor protocol binds "
                "the replacement (plain function or @asynq function fetched through an instance, classmethod object)"]
 EXPLANATION = ("Mock.v models the attribute store, every _patch object's saved original, _active_patches, _maybe_wrap_new's "
@@ -66,6 +73,9 @@ REFUSING = ("RNcSlots", "RNcFrozen", "RNcType", "RNcRaiser")
 AS_IS = ("RAsynqFn", "RCallableObj", "RNonCallable", "RMockObj", "RClassObj")
 # explicit new= objects (a caller can give the same one to several patches)
 EXPLICIT = tuple(r for r in RKS if r not in PER_ACTIVATION)
+# kinds of value a replacement returns besides the plain tuple of BRet (a future object among them is a value like any other)
+RESULT_KINDS = ["BRetNone", "BRetExc", "BRetFut", "BRetTask", "BRetBatch"]
+FUTURE_RESULTS = ("BRetFut", "BRetTask", "BRetBatch")
 STYLES = ["SWith", "SDecor", "SDecorCls", "SDecorStack", "StartStop", "StartStopAll"]
 
 
@@ -379,6 +389,50 @@ def shared_cases(rng, full):
     return out
 
 
+def _with_result_kinds(rng, c, part):
+    """the same scenario, every returning replacement gets a random result kind (patchers given one object keep one behaviour)"""
+    ps = norm_ps(c["ps"])
+    kind = {}
+    for i, p in enumerate(ps):
+        if p[2] == "BRet":
+            key = i if p[1] in PER_ACTIVATION else ("obj", p[3])
+            if key not in kind:
+                kind[key] = rng.choice(RESULT_KINDS + list(FUTURE_RESULTS))
+            p[2] = kind[key]
+    meta = dict(c["meta"])
+    meta["part"] = part
+    return mk(c["tks"], ps, c["ops"], c.get("api"), reuse=c.get("reuse", True), **meta)
+
+
+def result_kind_cases(rng, full):
+    """part 4: what KIND of value the replacement returns (payload dimension of 'agree on the result')"""
+    out = []
+    callable_rks = [rk for rk in RKS if rk not in NONCALLABLE and rk not in REFUSING]
+    for rk in callable_rks:
+        tks_ok = [tk for tk in TKS if compat(tk, rk)]
+        for beh in RESULT_KINDS:
+            for tk in (tks_ok if full else [rng.choice(tks_ok)]):
+                for style in (STYLES if full else [rng.choice(STYLES)]):
+                    exc = rng.random() < 0.3
+                    api = rng.choice(["patch", "object"])
+                    if style == "SDecorStack":
+                        o = [{"OEnter": [1, "SDecor"]}, {"OEnter": [0, "SDecorStack"]}]
+                        cl = [{"OExit": [0, "SDecorStack", B(exc)]}, {"OExit": [1, "SDecor", B(exc)]}]
+                        ps = [(0, rk, beh), (0, "RDefault", rng.choice(RESULT_KINDS))]
+                    else:
+                        o, cl = open_close(0, style, exc)
+                        ps = [(0, rk, beh)]
+                    ops = [{"OProbe": [0, _args(rng)]}] + o + [{"OProbe": [0, _args(rng)]}] + cl + [{"OProbe": [0, _args(rng)]}]
+                    out.append(mk([tk], ps, ops, [api] * len(ps), part="result-kind", style=style, exc=exc))
+    n_nested, n_shared = (600, 1) if full else (40, 0)
+    out += [_with_result_kinds(rng, nested_case(rng), "result-kind-nested") for _ in range(n_nested)]
+    shared = shared_cases(rng, False)
+    if not full:
+        shared = [shared[i] for i in sorted(rng.sample(range(len(shared)), 25))]
+    out += [_with_result_kinds(rng, c, "result-kind-shared") for c in shared]
+    return out
+
+
 def gen_cases(rng, tier):
     if tier == "quick":
         cs = product_cases(rng, False, False)
@@ -392,6 +446,8 @@ def gen_cases(rng, tier):
         cs += shared_cases(rng, True)
         cs += [nested_case(rng) for _ in range(8000)]
         cs += [malformed_case(rng) for _ in range(1500)]
+    # drawn after the main stream, so that the cases above stay what they were
+    cs += result_kind_cases(rng, tier != "quick")
     return cs
 
 
@@ -447,6 +503,12 @@ CORPUS = [
        [{"OStart": [0]}, {"OEnter": [1, "SDecorCls"]}, {"OProbe": [0, [7]]}, {"OEnter": [2, "SWith"]}, {"OProbe": [1, [8]]},
         {"OExit": [2, "SWith", "false"]}, {"OExit": [1, "SDecorCls", "false"]}, {"OProbe": [0, [9]]}, {"OStop": [0, "true"]},
         {"OProbe": [0, [1]]}, {"OProbe": [1, [2]]}], ["object", "object", "patch"], corpus=True),
+    # the replacement returns a FUTURE OBJECT as its result (default mock with such a return value; bound method; callable
+    # object; function on a method; new_callable product), None, an exception instance: all conventions deliver that object
+    _blk("TModFn", "RDefault", "SWith", False, beh="BRetFut"), _blk("TModFn", "RBound", "SWith", False, beh="BRetTask"),
+    _blk("TMethod", "RCallableObj", "StartStop", False, beh="BRetBatch"), _blk("TMethod", "RFunc", "SDecor", False, beh="BRetFut"),
+    _blk("TClassmethod", "RNcObj", "SWith", True, beh="BRetFut"), _blk("TModFn", "RAsynqFn", "SWith", False, beh="BRetFut"),
+    _blk("TStaticmethod", "RMockObj", "SDecorCls", False, beh="BRetNone"), _blk("TModFn", "RClassObj", "StartStopAll", False, beh="BRetExc"),
 ]
 
 
@@ -497,6 +559,9 @@ def distribution(cases):
         for p in c["ps"]:
             d["replacement_kind"][p[1]] = d["replacement_kind"].get(p[1], 0) + 1
             d["behaviour_raise"] += p[2] == "BRaise"
+            if p[2] in RESULT_KINDS:
+                d.setdefault("result_kind", {})
+                d["result_kind"][p[2]] = d["result_kind"].get(p[2], 0) + 1
         depth = mx = 0
         acts = {}
         d["redecorate_each_time"] += not c.get("reuse", True)
@@ -778,9 +843,13 @@ def monitors(c, io, build):
                         site = "wrong-arguments"
                     else:
                         wid = body_id(active, agen)["ONew"]
-                        want = ["raise", "VErr", wid] if beh == "BRaise" else ["ret", ["ret", "new", wid, [str(x) for x in recv]]]
+                        # the result: what the replacement raised, or the very object it returned (for the non-plain result
+                        # kinds the runner compares by identity; a third entry says what was delivered instead)
+                        want = ["raise", "VErr", wid] if beh == "BRaise" else ["ret", [beh if beh in RESULT_KINDS else "ret", "new", wid, [str(x) for x in recv]]]
                         if cv["outcome"] != want:
                             site = "wrong-result-%s" % cv["outcome"][0] + ("-" + str(cv["outcome"][1]) if cv["outcome"][0] == "raise" else "")
+                            if cv["outcome"][0] == "ret" and len(cv["outcome"]) > 2:
+                                site += "-" + str(cv["outcome"][2])
                 if site:
                     add("reach-replacement", "%s:%s:%s%s" % (cell, cv["conv"], site, ctx),
                         "op %d: %s on target %d (%s) with args %s while patcher %d (%s) is active%s: calls=%s outcome=%s" % (
